@@ -249,6 +249,12 @@ def r13_2(ctx):
         if isinstance(n, ast.Assign) and len(n.targets) == 1 and isinstance(n.targets[0], ast.Name) and n.targets[0].id == idx_name:
             v = n.value
             ok = isinstance(v, ast.BinOp) and isinstance(v.op, ast.FloorDiv) and const_int(v.right) == 2 and lin_eq(lin(v.left), {lower: 1, upper: 1})
+            if not ok and isinstance(v, ast.BinOp) and isinstance(v.op, ast.Add):
+                # the overflow-safe spelling lower + (upper - lower) // 2: floor((l + u) / 2) again, since l is an integer
+                for a_, b_ in ((v.left, v.right), (v.right, v.left)):
+                    if (lin_eq(lin(a_), {lower: 1}) and isinstance(b_, ast.BinOp) and isinstance(b_.op, ast.FloorDiv) and const_int(b_.right) == 2
+                            and lin_eq(lin(b_.left), {upper: 1, lower: -1})):
+                        ok = True
             mids += 1
             ctx.check(ok, f.fq, norm(n), f"{f.module.relpath}:{n.lineno}", "probe index is the midpoint of [lower, upper]", f"probe index `{norm(v)}` is not (lower+upper)//2")
     ctx.floor(mids, 1, "midpoint computations")
